@@ -18,6 +18,25 @@ open Ir
 
 variable {w : Nat}
 
+/-! ### 0. The spec is the intended one (positional readings of the three spec functions) -/
+
+/-- Balanced = no unmatched `]` and no unclosed `[`. -/
+theorem spec_balanced_iff (src : List Kind) :
+    Balanced src ↔ firstUnmatchedClose src = none ∧ innermostUnclosed src = none :=
+  balanced_iff src
+
+/-- `firstUnmatchedClose src = some i` iff character `i` is a `]` and the text before it is balanced
+(scans from depth 0 back to depth 0 without going negative): the FIRST `]` without partner. -/
+theorem spec_firstUnmatchedClose (src : List Kind) (i : Nat) :
+    firstUnmatchedClose src = some i ↔ src[i]? = some Kind.close ∧ Balanced (src.take i) :=
+  firstUnmatchedClose_iff src i
+
+/-- When no `]` is unmatched, `innermostUnclosed src = some j` iff character `j` is a `[` and the text
+after it is balanced: the LAST `[` that is never closed. -/
+theorem spec_innermostUnclosed (src : List Kind) (j : Nat) (h : firstUnmatchedClose src = none) :
+    innermostUnclosed src = some j ↔ src[j]? = some Kind.open ∧ Balanced (src.drop (j + 1)) :=
+  innermostUnclosed_iff src j h
+
 /-! ### 1–2. Acceptance ⇔ balanced (parser and canonical tree) -/
 
 /-- The parser accepts exactly the balanced texts. -/
@@ -203,6 +222,9 @@ example : strip (kindsOfBytes "a[bé]c") = [.open, .close] := by
 end C12
 end Hpbf
 
+#print axioms Hpbf.C12.spec_balanced_iff
+#print axioms Hpbf.C12.spec_firstUnmatchedClose
+#print axioms Hpbf.C12.spec_innermostUnclosed
 #print axioms Hpbf.C12.parse_ok_iff_balanced
 #print axioms Hpbf.C12.tree_isSome_iff_balanced
 #print axioms Hpbf.C12.parse_ok_iff_tree_isSome
